@@ -555,7 +555,10 @@ func cbor2JsonOneObject(src *bufio.Reader, dst io.Writer) {
 
 	switch major {
 	case majorTypeUnsignedInt:
-		fallthrough
+		minor := readByte(src) & maskOutMajorType
+		n := uint64(decodeIntAdditionalType(src, minor))
+		dst.Write(strconv.AppendUint(nil, n, 10))
+
 	case majorTypeNegativeInt:
 		n := decodeInteger(src)
 		dst.Write([]byte(strconv.Itoa(int(n))))
